@@ -94,12 +94,14 @@ theorem hopTriples_mem (g : Graph) (p1 p2 : EdgeRec → NodeRec → Bool) (t : (
   obtain ⟨n', _, rfl⟩ := List.mem_map.mp hen
   exact he
 
-theorem evalProj_items2 (km : KindMap) (q : S2.Query) (e : EdgeRec) (a b : NodeRec) (E : EEnv) (lvl : Level) : ∀ (items : List S2.Item),
-    evalProj (E.push (sLvl3 km e a b)) lvl (items.map (S2.Item.tr q)) = .ok (items.map (itemVal2 km e a b))
-  | [] => by rw [List.map_nil, evalProj]; rfl
-  | it :: items => by
+theorem evalProj_items2 (km : KindMap) (q : S2.Query) (ke ka kb : Bool) (e : EdgeRec) (a b : NodeRec) (E : EEnv) (lvl : Level) : ∀ (items : List S2.Item),
+    (∀ it ∈ items, keepOf ke ka kb it.ref = true) →
+    evalProj (E.push (sLvlK km ke ka kb e a b)) lvl (items.map (S2.Item.tr q)) = .ok (items.map (itemVal2 km e a b))
+  | [], _ => by rw [List.map_nil, evalProj]; rfl
+  | it :: items, h => by
     rw [List.map_cons, evalProj]
-    · rw [eval_item2, evalProj_items2 km q e a b E lvl items]; rfl
+    · rw [eval_item2 km q ke ka kb e a b E it (h it (List.mem_cons_self ..)),
+        evalProj_items2 km q ke ka kb e a b E lvl items (fun i hi => h i (List.mem_cons_of_mem _ hi))]; rfl
     · intro hh; cases it with
       | ent x al => cases hh
       | idOf x al => cases al <;> cases hh
@@ -114,35 +116,35 @@ theorem hasAggL_items2 (q : S2.Query) : ∀ (items : List S2.Item), hasAggL (ite
     | idOf x al => cases al <;> simp [S2.Item.tr, S2.col, hasAgg]
     | prop x k al => cases al <;> simp [S2.Item.tr, S2.col, S1.strLit, hasAgg]
 
-/-- the whole statement, given the frame's FROM rows in either join order and the meaning of its WHERE -/
-theorem sql_hop_ben (km : KindMap) (g : Graph) (q : S2.Query)
+/-- the whole statement, given the frame's FROM rows in either join order, the meaning of its WHERE, and the bindings the frame keeps
+(every binding a RETURN item reads is kept) -/
+theorem sql_hop_ben (km : KindMap) (g : Graph) (q : S2.Query) (ke ka kb : Bool) (hkeep : ∀ it ∈ q.items, keepOf ke ka kb it.ref = true)
     {T : Type} (ts : List T) (lv : T → Level) (eOf : T → EdgeRec) (aOf bOf : T → NodeRec) (joins : List Join)
     (hfrom : BenignT (evalFromClauses (E0 (encode km g)) [[]] [.mk (.table ["edge"] (some "e0")) joins]) (ts.map lv))
     (hb : ∀ t ∈ ts, findBinding "e0" (lv t) = some (eB km (eOf t)) ∧ findBinding "n0" (lv t) = some (nB "n0" km (aOf t)) ∧
       findBinding "n1" (lv t) = some (nB "n1" km (bOf t)))
     (wh : Option Expr) (pw : T → Bool) (hwh : ∀ t ∈ ts, BenignT (whTest (E0 (encode km g)) wh (lv t)) (pw t)) :
     ∃ names, BenignT (Sql.eval (encode km g) (.query (.mk false
-      [.mk "s0" none none (Query.simple (.select false [S2.edgeComposite, S2.nodeCompositeOf "n0", S2.nodeCompositeOf "n1"]
-        [.mk (.table ["edge"] (some "e0")) joins] wh [] none))]
+      [.mk "s0" none none (Query.simple (.select false (S2.frameProj ke ka kb) [.mk (.table ["edge"] (some "e0")) joins] wh [] none))]
       (.select false (q.items.map (S2.Item.tr q)) [.mk (.table ["s0"] none) []] none [] none) [] none none)) [])
       (⟨names, (ts.filter pw).map (fun t => q.items.map (itemVal2 km (eOf t) (aOf t) (bOf t)))⟩ : Table) := by
   rw [eval_cteStmt]
   generalize hts : ts.filter pw = ts'
-  generalize ht0 : (⟨["e0", "n0", "n1"], ts'.map (fun t => [edgeVal km (eOf t), nodeVal km (aOf t), nodeVal km (bOf t)])⟩ : Table) = t0
-  have hfr := hop_frame_ben km g ts lv eOf aOf bOf _ hfrom hb wh pw hwh
+  generalize ht0 : (⟨keptCols ke ka kb, ts'.map (fun t => keptVals km ke ka kb (eOf t) (aOf t) (bOf t))⟩ : Table) = t0
+  have hfr := hop_frame_ben km g ke ka kb ts lv eOf aOf bOf _ hfrom hb wh pw hwh
   rw [hts, ht0] at hfr
   have hl : lookupTableE (E1 (encode km g) t0) "s0" = .ok t0 := by simp [lookupTableE, E1]
-  have hrows : (t0.rows.map (fun r => [(⟨(none : Option String).getD "s0", t0.cols, r⟩ : Binding)])) = ts'.map (fun t => sLvl3 km (eOf t) (aOf t) (bOf t)) := by
+  have hrows : (t0.rows.map (fun r => [(⟨(none : Option String).getD "s0", t0.cols, r⟩ : Binding)])) = ts'.map (fun t => sLvlK km ke ka kb (eOf t) (aOf t) (bOf t)) := by
     subst ht0
-    simp [List.map_map, Function.comp_def, sLvl3]
-  refine ⟨projNames (q.items.map (S2.Item.tr q)) (ts'.map (fun t => sLvl3 km (eOf t) (aOf t) (bOf t))), benT_bind hfr (Or.inl ?_)⟩
+    simp [List.map_map, Function.comp_def, sLvlK]
+  refine ⟨projNames (q.items.map (S2.Item.tr q)) (ts'.map (fun t => sLvlK km ke ka kb (eOf t) (aOf t) (bOf t))), benT_bind hfr (Or.inl ?_)⟩
   rw [evalSelect_single _ _ _ _ _ _ hl (hasAggL_items2 q q.items), hrows, whTest_none, filterE_true]
   simp only [ebind_ok]
-  rw [mapE_map_ok (fun t => sLvl3 km (eOf t) (aOf t) (bOf t)) _
-    (fun t => (q.items.map (itemVal2 km (eOf t) (aOf t) (bOf t)), some ((E1 (encode km g) t0).push (sLvl3 km (eOf t) (aOf t) (bOf t)))))]
+  rw [mapE_map_ok (fun t => sLvlK km ke ka kb (eOf t) (aOf t) (bOf t)) _
+    (fun t => (q.items.map (itemVal2 km (eOf t) (aOf t) (bOf t)), some ((E1 (encode km g) t0).push (sLvlK km ke ka kb (eOf t) (aOf t) (bOf t)))))]
   · simp only [ebind_ok, epure_ok, List.map_map, Function.comp_def]
   · intro t _
-    rw [evalProj_items2]; rfl
+    rw [evalProj_items2 km q ke ka kb _ _ _ _ _ q.items hkeep]; rfl
 
 -- ------------------------------------------------------------------ SQL order versus Cypher order
 
@@ -400,9 +402,9 @@ theorem rows_perm' (km : KindMap) (g : Graph) (q : S2.Query) (hn : ∀ n ∈ g.n
   exact hM.map _
 
 /-- STAGE S2 (one directed hop with an optional WHERE of single-variable conjuncts), for ALL graphs satisfying `GraphOK2`, ALL queries of the
-stage and BOTH join orders: the reference semantics yields a result; the emitted statement either yields a table whose client-visible rows
+stage, BOTH join orders and the frame with or without projection pruning: the reference semantics yields a result; the emitted statement either yields a table whose client-visible rows
 are a permutation of the Cypher rows, or the SQL model stops with `unmodelled` (never a run-time / type / name error) -/
-theorem s2_sound (km : KindMap) (g : Graph) (hok : GraphOK2 km g) (q : S2.Query) (flip : Bool) (st : Stmt) (h : q.trWith km flip = some st) :
+theorem s2_sound (km : KindMap) (g : Graph) (hok : GraphOK2 km g) (q : S2.Query) (flip prune : Bool) (st : Stmt) (h : q.trWith km flip prune = some st) :
     ∃ r names rows, Cy.eval .none g q.toCy = .ok r ∧ BenignT (Sql.eval (encode km g) st []) (⟨names, rows⟩ : Table) ∧
       (sqlRows ⟨names, rows⟩).Perm (cyRows g km r) := by
   have hnd := hok.nodup
@@ -434,6 +436,13 @@ theorem s2_sound (km : KindMap) (g : Graph) (hok : GraphOK2 km g) (q : S2.Query)
   | some pb =>
   simp only [hka, hkr, hkb, hpa, hpr, hpb, Option.some.injEq] at h
   have hcy := cy_side2 g q hwf hn he
+  have hkeep : ∀ it ∈ q.items, keepOf (!prune || q.reads .r) (!prune || q.reads .a) (!prune || q.reads .b) it.ref = true := by
+    intro it hit
+    have hr : q.reads it.ref = true := by
+      unfold S2.Query.reads
+      simp only [Bool.or_eq_true, List.any_eq_true]
+      exact Or.inl ⟨it, hit, by simp⟩
+    cases hx : it.ref <;> (rw [hx] at hr; simp [keepOf, hr])
   have hCyPerm : (g.edges.flatMap (fun e => (g.nodes.filter (pA q e)).flatMap (fun a => hopF g q e a))).Perm (hopMatchesCy g q) := by
     rw [hopMatchesCy_eq]
     exact flatMap_filter_swap (pA q) (hopF g q) g.edges g.nodes
@@ -453,7 +462,7 @@ theorem s2_sound (km : KindMap) (g : Graph) (hok : GraphOK2 km g) (q : S2.Query)
     simp only [Bool.false_eq_true, if_false] at h
     subst h
     have hfrom := hop_from_ben km g "n0" "n1" _ _ (pA' q) (pB' q) (by decide) (by decide) (by decide) honA honB
-    obtain ⟨names, hsql⟩ := sql_hop_ben km g q (hopTriples g (pA' q) (pB' q)) (fun t => [eB km t.1.1, nB "n0" km t.1.2, nB "n1" km t.2])
+    obtain ⟨names, hsql⟩ := sql_hop_ben km g q _ _ _ hkeep (hopTriples g (pA' q) (pB' q)) (fun t => [eB km t.1.1, nB "n0" km t.1.2, nB "n1" km t.2])
       (fun t => t.1.1) (fun t => t.1.2) (fun t => t.2) _ hfrom
       (fun t _ => ⟨by simp [findBinding, eB], by simp [findBinding, eB, nB], by simp [findBinding, eB, nB]⟩)
       _ (fun t => wR' q t.1.1)
@@ -469,7 +478,7 @@ theorem s2_sound (km : KindMap) (g : Graph) (hok : GraphOK2 km g) (q : S2.Query)
     simp only [if_true] at h
     subst h
     have hfrom := hop_from_ben km g "n1" "n0" _ _ (pB' q) (pA' q) (by decide) (by decide) (by decide) honB honA
-    obtain ⟨names, hsql⟩ := sql_hop_ben km g q (hopTriples g (pB' q) (pA' q)) (fun t => [eB km t.1.1, nB "n1" km t.1.2, nB "n0" km t.2])
+    obtain ⟨names, hsql⟩ := sql_hop_ben km g q _ _ _ hkeep (hopTriples g (pB' q) (pA' q)) (fun t => [eB km t.1.1, nB "n1" km t.1.2, nB "n0" km t.2])
       (fun t => t.1.1) (fun t => t.2) (fun t => t.1.2) _ hfrom
       (fun t _ => ⟨by simp [findBinding, eB], by simp [findBinding, eB, nB], by simp [findBinding, eB, nB]⟩)
       _ (fun t => wR' q t.1.1)
